@@ -27,6 +27,7 @@ LINE_LENGTH = 80
 
 ESCAPE_CHARS = r"[\x00-\x1F\x7F{}]"
 P_ESCAPE_TEXT = re.compile(ESCAPE_CHARS.format('"&<'))
+P_ESCAPE_CONTENT = re.compile(ESCAPE_CHARS.format('"&<') + r"|(?<=\]\])>")
 P_ESCAPE_COMMENTS = re.compile(ESCAPE_CHARS.format(">"))
 P_NAME = re.compile(r"^(?:\{([^}]*)\})?(.+)$")
 
@@ -435,7 +436,7 @@ def _serialize_text(
     errors: str,
     pos: int,
     multiline: bool = False,
-    pattern: re.Pattern[str] = P_ESCAPE_TEXT,
+    pattern: re.Pattern[str] = P_ESCAPE_CONTENT,
 ) -> int:
     if not text:
         return pos
